@@ -16,7 +16,9 @@ Oracle (end-to-end, written from RFC 5321 section 4.5.2 and the statement):
     client has read its file to EOF and sent its terminator;
   * the command lines the server executed are exactly the command lines the
     client sent with sendLine (nothing from a body became a command);
-  * every message is reported to the client as sent with a 250.
+  * every message is reported to the client as sent with a 250 (a message refused by the server-side message object:
+    with that object's refusal code);
+  * the server sends no reply between its 354 and the client's terminator (the transfer ends only at the terminator).
 
 A mismatch whose first divergence is a body line that starts with '.' and sits
 at body offset 0 or at a FileSender chunk boundary gets its own signature
@@ -24,6 +26,18 @@ at body offset 0 or at a FileSender chunk boundary gets its own signature
 predicts for SMTPClient.transformChunk.  In half of the runs the body generator
 avoids that precondition (knob "avoid_boundary_dots") so that every other clause
 is still exercised on full sessions.
+
+Two further families (round 4):
+  * refusing message objects: with a small probability per DATA transaction one recipient's IMessage.lineReceived raises
+    SMTPServerError (the documented way to refuse data, e.g. a size limit) at a tape-chosen line of what it is handed -
+    first, middle or last.  The client cannot know and keeps streaming the body (which may contain command-looking lines):
+    the server must go on treating it as data up to the client's terminator and only then answer (with the refusal code);
+    the commands it executed are still exactly the client's, a following message on the same connection goes through
+    normally, the refused message object is never completed and saw only a prefix of the body.
+  * overlapping sessions: in ~30 % of the runs a SECOND, independent client/server pair (own link, bodies, read-chunk size,
+    refusal plan, recorders) runs at the same time; the tape picks before every network event which pair moves, so FileSender
+    reads, deliveries and replies of the two alternate and their DATA transfers overlap.  Both sessions are judged by the same
+    oracle: one connection's transfer must not depend on what another connection is doing.
 """
 import io
 import traceback
@@ -40,7 +54,7 @@ ENGINE = "net"
 LEVEL = "exploration"
 TECHNIQUE = ("deterministic simulation: real SMTPClient <-> real SMTP/ESMTP over a simulated link, seeded bodies, "
              "FileSender chunk size and wire segmentation; end-to-end line oracle")
-QUICK_RUNS = 80000
+QUICK_RUNS = 56000
 TWIN_P = 0.08   # this share of the runs drives two independent instances of the scenario one after the other (detsim.runner._run_scenario)
 BATCH = 250
 RUN_WALL_LIMIT_S = 120   # runs take milliseconds; generous so that an overloaded host is not mistaken for a hang
@@ -48,12 +62,20 @@ COMPONENTS = {"real": ["twisted.mail.smtp.SMTPClient (transformChunk, finishedFi
                        "twisted.mail.smtp.SMTP / ESMTP (state_COMMAND, dataLineReceived)",
                        "twisted.protocols.basic.FileSender", "twisted.protocols.basic.LineReceiver/LineOnlyReceiver"],
               "stub": ["TCP transport, delivery segmentation and pull-producer scheduling (detsim.net.Link)",
-                       "IMessageDelivery/IMessageSMTP recorder", "message file (BytesIO recording EOF)"]}
-RULE = ("run = one SMTP session of 1-2 messages, each body 1-12 LF-terminated lines drawn from a dot-rich grammar, FileSender.CHUNK_SIZE "
-        "drawn from {16384,1,2,3,4,5,7,8,16,64}, all network events tape-chosen; non-trivial = some body line starts with '.' "
-        "and (the body was read in more than one chunk or the wire was segmented)")
+                       "IMessageDelivery/IMessageSMTP recorder (optionally refusing data at a tape-chosen line)",
+                       "message file (BytesIO recording EOF, at most its session's chunk size per read)"]}
+RULE = ("run = one SMTP session of 1-2 messages, each body 1-12 LF-terminated lines drawn from a dot-rich grammar (with command-looking lines), "
+        "read-chunk size drawn from {16384,1,2,3,4,5,7,8,16,64}, all network events tape-chosen; per DATA transaction p=0.15 one recipient's message "
+        "object refuses the data (SMTPServerError) at a tape-chosen line; in 30 % of the runs a second independent client/server pair with its own "
+        "bodies/chunk size runs concurrently, the tape choosing before each event which pair moves (start offset 0-100 events); "
+        "non-trivial = some body line starts with '.' and (a body was read in more than one chunk or the wire was segmented)")
 ASSUMPTIONS = ["bodies are non-empty sequences of LF-terminated lines without CR, each shorter than the server's line limit (<= 300 bytes here)",
-               "server delivery accepts every sender and recipient; no timeouts fire (timers are on the simulated clock and never advanced)"]
+               "server delivery accepts every sender and recipient; no timeouts fire (timers are on the simulated clock and never advanced)",
+               "a message object refuses data only by raising SMTPServerError from lineReceived on a body-stage line (never on the Received header, "
+               "which is handed over before the 354); for a refused transaction the oracle demands: commands executed == commands sent, no reply before "
+               "the client's terminator, the refusal code as the only error reply and as the client's result, message objects saw a prefix of the body and "
+               "the refusing one is never completed (nothing about connectionLost counts or co-recipients being completed or not)",
+               "the two concurrent sessions share nothing but the process (classes, module state) and the simulated clock; each has its own link and file"]
 
 CHUNKS = [2 ** 14, 1, 2, 3, 4, 5, 7, 8, 16, 64]
 TEXT = b"ab.:. X-\tz\xe9"
@@ -101,9 +123,13 @@ def diagnose(body_lines, chunk, wire):
 # ------------------------------------------------------------------ recorders
 
 class RecFile(io.BytesIO):
+    """Message file: records EOF; hands out at most `size` bytes per read (a file may always return fewer bytes than asked for)."""
     eof = False
+    size = None
 
     def read(self, n=-1):
+        if self.size is not None and (n is None or n < 0 or n > self.size):
+            n = self.size
         d = io.BytesIO.read(self, n)
         if not d:
             self.eof = True
@@ -112,20 +138,28 @@ class RecFile(io.BytesIO):
 
 @implementer(smtp.IMessage)
 class Msg:
-    def __init__(self, h, idx):
+    def __init__(self, h, idx, refuse=None):
         self.h, self.idx = h, idx
         self.lines = []
         self.eom = []          # (file_eof, terminators_sent) at each eomReceived
         self.lost = 0
+        self.refuse = refuse   # None | (number of lines accepted before refusing, code): the documented way to refuse data
+        self.refused = 0
 
     def lineReceived(self, line):
+        if self.refuse is not None and len(self.lines) >= self.refuse[0]:
+            if not self.refused:
+                self.h.sim.fault("message_refused_midbody")
+                self.h.sim.event(self.h.name, "refuse", self.idx, len(self.lines))
+            self.refused += 1
+            raise smtp.SMTPServerError(self.refuse[1], b"Refused by the message object")
         self.lines.append(line)
 
     def eomReceived(self):
         c = self.h.client
         f = c.files[self.idx] if self.idx < len(c.files) else None
         self.eom.append((bool(f is not None and f.eof), c.terminators))
-        self.h.sim.event("eom", self.idx, len(self.lines))
+        self.h.sim.event(self.h.name, "eom", self.idx, len(self.lines))
         return defer.succeed(None)
 
     def connectionLost(self):
@@ -147,7 +181,10 @@ class Delivery:
         h = self.h
 
         def make():
-            m = Msg(h, h.data_count)
+            k = h.data_count
+            ordinal = len([m for m in h.msgs if m.idx == k])
+            plan = h.refuse[k] if k < len(h.refuse) else None
+            m = Msg(h, k, (plan["at"], plan["code"]) if plan and plan["who"] == ordinal else None)
             h.msgs.append(m)
             return m
         return make
@@ -169,6 +206,8 @@ def make_server(base, h, hdr):
 
         def sendCode(self, code, message=b""):
             h.codes.append(code)
+            # (DATA transactions begun, terminators the client has sent so far) when this reply was produced
+            h.code_ctx.append((code, h.data_count, h.client.terminators))
             return base.sendCode(self, code, message)
 
     if base is smtp.ESMTP:
@@ -217,6 +256,7 @@ class Client(smtp.SMTPClient):
 
     def getMailData(self):
         f = RecFile(self.messages[len(self.files)][2])
+        f.size = self.h.chunk
         self.files.append(f)
         self.in_data = True
         self.data_span.append([len(self.transport.written), None])
@@ -224,14 +264,14 @@ class Client(smtp.SMTPClient):
 
     def sentMail(self, code, resp, numOk, addresses, log):
         self.sent.append((code, numOk))
-        self.h.sim.event("sentMail", code, numOk)
-
-
-class H:
-    pass
+        self.h.sim.event(self.h.name, "sentMail", code, numOk)
 
 
 # ------------------------------------------------------------------ workload
+
+CMDLIKE = [b"QUIT", b"RSET", b"DATA", b"MAIL FROM:<evil@sim.example>", b"250 ok", b"RCPT TO:<victim@sim.example>", b"NOOP"]
+REFUSAL_CODES = [552, 550, 451, 554]
+
 
 def gen_line(sim):
     kind = sim.draw_weighted([("text", 4), ("dot", 3), ("dottext", 4), ("dotdot", 2), ("empty", 2), ("hdr", 1),
@@ -249,7 +289,7 @@ def gen_line(sim):
     if kind == "hdr":
         return sim.draw_choice([b"Subject: x", b"X-A: .", b"a:b"], "hdr")
     if kind == "cmd":
-        return sim.draw_choice([b"QUIT", b"RSET", b"DATA", b"MAIL FROM:<evil@sim.example>", b"250 ok"], "cmd")
+        return sim.draw_choice(CMDLIKE, "cmd")
     if kind == "dotcmd":
         return sim.draw_choice([b".QUIT", b".RSET", b".DATA"], "dcmd")
     n = sim.draw_choice([17, 63, 64, 65, 129, 300], "longlen")
@@ -269,11 +309,7 @@ def gen_body(sim, chunk, avoid):
     return lines
 
 
-def run(sim):
-    chunk = sim.draw_choice(CHUNKS, "chunk")
-    avoid = sim.draw_bool(0.1, "avoid_boundary_dots")
-    esmtp = sim.draw_bool(0.5, "esmtp")
-    hdr = sim.draw_choice([None, b"Received: by sim"], "rcvd")
+def gen_messages(sim, tag, chunk, avoid):
     nmsgs = sim.draw_weighted([(1, 3), (2, 1)], "nmsgs")
     messages = []
     for k in range(nmsgs):
@@ -281,93 +317,209 @@ def run(sim):
         lines = gen_body(sim, chunk, avoid)
         body = b"".join(l + b"\n" for l in lines)
         messages.append((b"from%d@src.example" % k, rcpts, body, lines))
-        sim.event("body", k, body)
-    sim.config = {"chunk": chunk, "avoid_boundary_dots": avoid, "esmtp": esmtp, "rcvd": bool(hdr), "nmsgs": nmsgs}
+        sim.event(tag, "body", k, body)
+    return messages
 
-    h = H()
-    h.sim = sim
-    h.msgs, h.server_cmds, h.codes = [], [], []
-    h.data_count = 0
-    client = Client(h, [(m[0], m[1], m[2]) for m in messages])
-    h.client = client
-    server = make_server(smtp.ESMTP if esmtp else smtp.SMTP, h, hdr)
+
+def gen_refusals(sim, messages, hdr):
+    """Per DATA transaction: None, or which recipient's message object refuses, after how many accepted lines (counted in
+    what the message object is handed, never inside the Received header: that one is delivered before the 354) and with which code."""
+    plan = []
+    for frm, rcpts, body, lines in messages:
+        if not sim.draw_bool(0.15, "refuse"):
+            plan.append(None)
+            continue
+        pre, exp = expected_lines(lines, hdr)
+        first = 1 if hdr else 0
+        plan.append({"who": sim.draw_int(0, len(rcpts) - 1, "refuser"),
+                     "at": first + sim.draw_int(0, len(exp) - first - 1, "refuse_at"),
+                     "code": sim.draw_choice(REFUSAL_CODES, "refuse_code")})
+    return plan
+
+
+class Session:
+    """One SMTPClient <-> SMTP/ESMTP pair on its own link, with its own bodies, read-chunk size, refusal plan, recorders and verdicts."""
+
+    def __init__(self, sim, name, chunk, esmtp, hdr, messages, refuse):
+        self.sim, self.name = sim, name
+        self.chunk, self.esmtp, self.hdr, self.messages, self.refuse = chunk, esmtp, hdr, messages, refuse
+        self.msgs, self.server_cmds, self.codes, self.code_ctx = [], [], [], []
+        self.data_count = 0
+        self.client = Client(self, [(m[0], m[1], m[2]) for m in messages])
+        self.server = make_server(smtp.ESMTP if esmtp else smtp.SMTP, self, hdr)
+        self.link = net.Link(sim, self.client, self.server)
+        self.cap = 400 + 14 * sum(len(m[2]) for m in messages)
+        self.steps = 0
+        self.started = False
+        self.finished = False
+        self.raised = None
+
+    @property
+    def live(self):
+        return self.started and not self.finished and self.raised is None and self.steps < self.cap
+
+    def _guarded(self, fn):
+        try:
+            return fn()
+        except Exception as e:      # classified in judge(), after the diagnosis of the predicted defect
+            tb = traceback.extract_tb(e.__traceback__)[-1]
+            self.raised = (type(e).__name__, "%s: %s (at %s:%s %s)" % (type(e).__name__, str(e)[:200], tb.filename.split("/")[-1], tb.lineno, tb.name))
+            self.sim.event(self.name, "raised", self.raised[0])
+            return None
+
+    def connect(self):
+        self.started = True
+        self._guarded(lambda: self.link.connect(a_first=False))
+
+    def step(self):
+        self.steps += 1
+        if self._guarded(self.link.step) is False:
+            self.finished = True
+
+    # ---- oracle (recorded history, fixed order) --------------------------------
+    def judge(self):
+        sim, client, link, hdr, chunk, messages = self.sim, self.client, self.link, self.hdr, self.chunk, self.messages
+        raised = self.raised
+        nmsgs = len(messages)
+        nrc = [len(m[1]) for m in messages]
+        refuse = self.refuse
+        # group recorded server messages per DATA transaction (one per recipient)
+        per_data = {}
+        for m in self.msgs:
+            per_data.setdefault(m.idx, []).append(m)
+
+        # 1. the predicted defect gets its own signature: the end-to-end result is wrong
+        #    AND the client's wire lacks exactly the dots of boundary lines
+        for k, (frm, rcpts, body, lines) in enumerate(messages):
+            if k >= len(client.data_span) or refuse[k]:
+                continue
+            wire = bytes(link.a.written[client.data_span[k][0]:])
+            _, exp = expected_lines(lines, hdr)
+            ms = per_data.get(k, [])
+            if ms and all(m.lines == exp for m in ms):
+                continue
+            where = diagnose(lines, chunk, wire)
+            if where:
+                sim.fail("leading-dot-not-stuffed", where,
+                         "chunk=%d body=%r DATA section on the wire=%r server message got %r" % (chunk, body, wire[:400], [m.lines for m in ms][:1]))
+
+        sim.check("protocol-raised", raised is None, raised and raised[0], raised and raised[1])
+        sim.check("session-completes", self.finished, "steps", "link %s still busy after %d steps" % (self.name, self.cap))
+        sim.check("all-messages-accepted", sorted(per_data) == list(range(nmsgs)), "data-count",
+                  "DATA transactions seen by server: %r expected %d" % (sorted(per_data), nmsgs))
+        for k, (frm, rcpts, body, lines) in enumerate(messages):
+            ms = per_data[k]
+            sim.check("one-message-per-recipient", len(ms) == len(rcpts), "count", "msg %d: %d recorders for %d rcpts" % (k, len(ms), len(rcpts)))
+            _, exp = expected_lines(lines, hdr)
+            for j, m in enumerate(ms):
+                if m.refused:
+                    # the message object refused the data: whatever it (and its co-recipients) had been handed up to then is
+                    # body content in order, and a refused message is never completed (it lacks lines of the body)
+                    sim.check("refused-message-not-completed", not m.eom, "server-message",
+                              lambda: "msg %d rcpt %d refused after %d lines, yet eomReceived x%d" % (k, j, len(m.lines), len(m.eom)))
+                if refuse[k]:
+                    sim.check("body-lines-prefix", m.lines == exp[:len(m.lines)], "refused-transaction",
+                              lambda: "chunk=%d msg %d rcpt %d body=%r expected a prefix of %r got %r" % (chunk, k, j, body, exp, m.lines))
+                    if not m.eom:
+                        continue
+                sim.check("body-lines-equal", m.lines == exp, "server-message",
+                          lambda: "chunk=%d msg %d body=%r expected %r got %r" % (chunk, k, body, exp, m.lines))
+                sim.check("eom-once", len(m.eom) == 1, "server-message", "eomReceived x%d" % len(m.eom))
+                sim.check("ends-at-terminator", m.eom[0] == (True, k + 1), "server-message",
+                          "eomReceived when file_eof=%r terminators_sent=%r (message %d)" % (m.eom[0][0], m.eom[0][1], k))
+                if not refuse[k]:
+                    sim.check("no-abort", m.lost == 0, "server-message", "IMessage.connectionLost x%d" % m.lost)
+        sim.check("commands-are-clients", self.server_cmds == client.cmds, "server",
+                  lambda: "server executed %r; client sent %r" % (self.server_cmds, client.cmds))
+        datas = [c for c in self.server_cmds if c.strip().upper() == b"DATA"]
+        sim.check("commands-shape", len(datas) == nmsgs and self.server_cmds[:1] == [b"HELO client.sim.example"]
+                  and self.server_cmds[-1:] == [b"QUIT"], "server", lambda: "commands %r" % (self.server_cmds,))
+        # the transfer ends only at the client's terminator: between the 354 of a DATA transaction and the client's "." the
+        # server says nothing (in particular a refusal by the message object is reported only after the whole body was swallowed)
+        early = [c for c in self.code_ctx if c[1] != c[2]]
+        sim.check("reply-only-after-terminator", not early, "server",
+                  lambda: "replies (code, DATA transactions begun, terminators sent by the client) %r" % (early[:4],))
+        want_err = [r["code"] for r in refuse if r]
+        sim.check("no-error-replies", [c for c in self.codes if not 200 <= c < 400] == want_err, "server",
+                  lambda: "reply codes %r; error replies expected only for the refused transactions: %r" % (self.codes, want_err))
+        want_sent = [(refuse[k]["code"] if refuse[k] else 250, n) for k, n in enumerate(nrc)]
+        sim.check("client-told-sent", client.sent == want_sent, "client", "sentMail calls %r expected %r" % (client.sent, want_sent))
+        sim.check("terminators", client.terminators == nmsgs, "client", "terminators sent %d" % client.terminators)
+        sim.check("closed", link.a.disconnected and link.b.disconnected, "link", "a=%r b=%r" % (link.a.disconnected, link.b.disconnected))
+
+        for k, r in enumerate(refuse):
+            if r:
+                _, exp = expected_lines(messages[k][3], hdr)
+                if r["at"] < len(exp) - 1:
+                    sim.probe("refused_before_last_line")
+                if any(l in CMDLIKE for l in exp[r["at"] + 1:]):
+                    sim.probe("command_like_line_after_refusal")
+                if k + 1 < nmsgs and not refuse[k + 1]:
+                    sim.probe("message_accepted_after_refused_one")
+                if len(messages[k][1]) > 1:
+                    sim.probe("refusal_with_two_recipients")
+
+
+def run(sim):
+    chunk = sim.draw_choice(CHUNKS, "chunk")
+    avoid = sim.draw_bool(0.1, "avoid_boundary_dots")
+    esmtp = sim.draw_bool(0.5, "esmtp")
+    hdr = sim.draw_choice([None, b"Received: by sim"], "rcvd")
+    messages = gen_messages(sim, "P1", chunk, avoid)
+    nmsgs = len(messages)
+    refuse = gen_refusals(sim, messages, hdr)
+    sim.config = {"chunk": chunk, "avoid_boundary_dots": avoid, "esmtp": esmtp, "rcvd": bool(hdr), "nmsgs": nmsgs,
+                  "refuse": refuse, "pairs": 1}
+    sessions = [Session(sim, "P1", chunk, esmtp, hdr, messages, refuse)]
+    # a second, independent client/server pair whose session runs at the same time (its events alternate with the first one's)
+    delay2 = 0
+    if sim.draw_bool(0.3, "second_pair"):
+        chunk2 = sim.draw_choice(CHUNKS[1:] + CHUNKS[:1], "chunk2")
+        esmtp2 = sim.draw_bool(0.5, "esmtp2")
+        hdr2 = sim.draw_choice([None, b"Received: by sim"], "rcvd2")
+        messages2 = gen_messages(sim, "P2", chunk2, avoid)
+        refuse2 = gen_refusals(sim, messages2, hdr2)
+        delay2 = sim.draw_choice([0, 3, 10, 30, 100], "delay2")
+        sim.config.update({"pairs": 2, "chunk2": chunk2, "esmtp2": esmtp2, "rcvd2": bool(hdr2), "nmsgs2": len(messages2),
+                           "refuse2": refuse2, "delay2": delay2})
+        sessions.append(Session(sim, "P2", chunk2, esmtp2, hdr2, messages2, refuse2))
 
     old_chunk = basic.FileSender.CHUNK_SIZE
-    basic.FileSender.CHUNK_SIZE = chunk
+    basic.FileSender.CHUNK_SIZE = max(s.chunk for s in sessions)    # each session's file hands out at most its own chunk size per read
+    overlap = False
     try:
-        link = net.Link(sim, client, server)
-        cap = 400 + 14 * sum(len(m[2]) for m in messages)
-        finished = False
-        raised = None
-        try:
-            link.connect(a_first=False)
-            for _ in range(cap):
-                if not link.step():
-                    finished = True
-                    break
-        except Exception as e:      # classified below, after the diagnosis of the predicted defect
-            tb = traceback.extract_tb(e.__traceback__)[-1]
-            raised = (type(e).__name__, "%s: %s (at %s:%s %s)" % (type(e).__name__, str(e)[:200], tb.filename.split("/")[-1], tb.lineno, tb.name))
-            sim.event("raised", raised[0])
+        sessions[0].connect()
+        n = 0
+        while True:
+            for s in sessions[1:]:
+                if not s.started and (n >= delay2 or not sessions[0].live):
+                    s.connect()
+            live = [s for s in sessions if s.live]
+            if not live:
+                break
+            s = live[0] if len(live) == 1 else sim.draw_choice(live, "pair")
+            s.step()
+            n += 1
+            if not overlap and len(sessions) > 1 and all(x.client.in_data for x in sessions):
+                overlap = True
+                sim.probe("data_transfers_overlap")
     finally:
         basic.FileSender.CHUNK_SIZE = old_chunk
         for dc in sim.clock.getDelayedCalls():
             dc.cancel()
 
-    # ---- oracle (recorded history, fixed order) --------------------------------
-    nrc = [len(m[1]) for m in messages]
-    # group recorded server messages per DATA transaction (one per recipient)
-    per_data = {}
-    for m in h.msgs:
-        per_data.setdefault(m.idx, []).append(m)
+    for s in sessions:
+        s.judge()
 
-    # 1. the predicted defect gets its own signature: the end-to-end result is wrong
-    #    AND the client's wire lacks exactly the dots of boundary lines
-    for k, (frm, rcpts, body, lines) in enumerate(messages):
-        if k >= len(client.data_span):
-            continue
-        wire = bytes(link.a.written[client.data_span[k][0]:])
-        _, exp = expected_lines(lines, hdr)
-        ms = per_data.get(k, [])
-        if ms and all(m.lines == exp for m in ms):
-            continue
-        where = diagnose(lines, chunk, wire)
-        if where:
-            sim.fail("leading-dot-not-stuffed", where,
-                     "chunk=%d body=%r DATA section on the wire=%r server message got %r" % (chunk, body, wire[:400], [m.lines for m in ms][:1]))
-
-    sim.check("protocol-raised", raised is None, raised and raised[0], raised and raised[1])
-    sim.check("session-completes", finished, "steps", "link still busy after %d steps" % cap)
-    sim.check("all-messages-accepted", sorted(per_data) == list(range(nmsgs)), "data-count",
-              "DATA transactions seen by server: %r expected %d" % (sorted(per_data), nmsgs))
-    for k, (frm, rcpts, body, lines) in enumerate(messages):
-        ms = per_data[k]
-        sim.check("one-message-per-recipient", len(ms) == len(rcpts), "count", "msg %d: %d recorders for %d rcpts" % (k, len(ms), len(rcpts)))
-        _, exp = expected_lines(lines, hdr)
-        for m in ms:
-            sim.check("body-lines-equal", m.lines == exp, "server-message",
-                      lambda: "chunk=%d msg %d body=%r expected %r got %r" % (chunk, k, body, exp, m.lines))
-            sim.check("eom-once", len(m.eom) == 1, "server-message", "eomReceived x%d" % len(m.eom))
-            sim.check("ends-at-terminator", m.eom[0] == (True, k + 1), "server-message",
-                      "eomReceived when file_eof=%r terminators_sent=%r (message %d)" % (m.eom[0][0], m.eom[0][1], k))
-            sim.check("no-abort", m.lost == 0, "server-message", "IMessage.connectionLost x%d" % m.lost)
-    sim.check("commands-are-clients", h.server_cmds == client.cmds, "server",
-              lambda: "server executed %r; client sent %r" % (h.server_cmds, client.cmds))
-    datas = [c for c in h.server_cmds if c.strip().upper() == b"DATA"]
-    sim.check("commands-shape", len(datas) == nmsgs and h.server_cmds[:1] == [b"HELO client.sim.example"]
-              and h.server_cmds[-1:] == [b"QUIT"], "server", lambda: "commands %r" % (h.server_cmds,))
-    sim.check("no-error-replies", all(200 <= c < 400 for c in h.codes), "server", lambda: "reply codes %r" % (h.codes,))
-    sim.check("client-told-sent", client.sent == [(250, n) for n in nrc], "client", "sentMail calls %r expected 250 x %r" % (client.sent, nrc))
-    sim.check("terminators", client.terminators == nmsgs, "client", "terminators sent %d" % client.terminators)
-    sim.check("closed", link.a.disconnected and link.b.disconnected, "link", "a=%r b=%r" % (link.a.disconnected, link.b.disconnected))
-
-    dots = any(l[:1] == b"." for m in messages for l in m[3])
-    multi = any(len(m[2]) > chunk for m in messages)
+    allm = [(m, s.chunk) for s in sessions for m in s.messages]
+    dots = any(l[:1] == b"." for m, _ in allm for l in m[3])
+    multi = any(len(m[2]) > c for m, c in allm)
     if multi:
         sim.probe("multi_chunk_body")
-    if any(l == b"." for m in messages for l in m[3]):
+    if any(l == b"." for m, _ in allm for l in m[3]):
         sim.probe("lone_dot_line")
-    sim.state((chunk if chunk < 100 else 0, nmsgs, esmtp, bool(hdr), dots, multi))
+    refused = any(r for s in sessions for r in s.refuse)
+    sim.state((chunk if chunk < 100 else 0, nmsgs, esmtp, bool(hdr), dots, multi, len(sessions), overlap, refused))
     sim.nontrivial = dots and (multi or sim.faults.get("segmentation", 0) > 0)
 
 
@@ -380,4 +532,11 @@ MUTANTS = [
     "smtp.py SMTP.dataLineReceived: blank line before header-less body not inserted -> caught (body-lines-equal)",
     "basic.py FileSender.resumeProducing: lastSent = first byte of chunk -> caught (body-lines-equal)",
     "smtp.py SMTPClient.transformChunk: LF not converted to CRLF -> caught (body-lines-equal, all-messages-accepted)",
+    "round 4, refusing message objects / overlapping sessions:",
+    "smtp.py SMTP.dataLineReceived: on SMTPServerError from the message object leave DATA mode and reply at once -> caught (commands-are-clients, all-messages-accepted, reply-only-after-terminator)",
+    "smtp.py SMTP.dataLineReceived: refusal code sent at once, rest of the body still swallowed -> caught (reply-only-after-terminator, no-error-replies)",
+    "smtp.py SMTP.dataLineReceived: first swallowed line after a refusal switches back to COMMAND mode -> caught (commands-are-clients, all-messages-accepted)",
+    "smtp.py SMTP.do_DATA: datafailed of an earlier refused message not cleared -> caught (body-lines-equal, no-error-replies)",
+    "smtp.py SMTPClient: line-start flag of transformChunk kept in a helper object shared by all instances -> caught (leading-dot-not-stuffed, body-lines-equal; needs overlapping sessions)",
+    "smtp.py SMTPClient.transformChunk: line-start flag written to the class instead of the instance -> caught (body-lines-equal; needs overlapping sessions)",
 ]
